@@ -43,6 +43,11 @@ class CholLinearOperator(RootLinearOperator):
                 chol = TriangularLinearOperator(chol, upper=True)
             else:
                 raise ValueError("chol must be either lower or upper triangular")
+        if upper:
+            # R^T R == L L^T with L = R^T: store the lower factor, so that every method inherited from
+            # RootLinearOperator (matmul, diagonal, indexing, scaling, expansion, rebuilds) is correct
+            chol = chol._transpose_nonbatch()
+            upper = False
         super().__init__(chol)
         self.upper = upper
 
